@@ -10,9 +10,12 @@
    - the stall loop needs a new notify_waiters epoch per iteration; every step that bumps the epoch
      pays for one iteration of every thread (weight EPS);
    - a flush-task round is paid by the wake-up permit (CYC), a flush by the immutable memtable (FL),
-     a level-task round by its permit (LCYC). *)
+     a level-task round by its permit (LCYC);
+   - the self-notification of the flush task (LMemRecheck) is paid by a bonus RB that the task carries in
+     the last part of its round while an immutable memtable is pending and the round did not fail; the bonus
+     can only appear through a rotation (paid by the rotating committer) and disappears with LMemRecheck. *)
 From Coq Require Import List Arith Bool Lia Wf_nat.
-From SKV Require Import Conc.Pipeline Conc.PipelineExplore Conc.PipelineSpec Conc.PipelineLiveCore Conc.PipelineLiveCore3.
+From SKV Require Import Conc.Pipeline Conc.PipelineExplore Conc.PipelineSpec Conc.PipelineLiveBase.
 Import ListNotations.
 
 Definition Ls : nat := 3.
@@ -26,11 +29,12 @@ Definition KE (N : nat) : nat := KQ N + Lq * N + 1.
 Definition LCYC (N : nat) : nat := 6 + EPS N.
 Definition CYC (N : nat) : nat := 9 + LCYC N + 2 * EPS N.
 Definition FL (N : nat) : nat := EPS N + 2.
+Definition RB (N : nat) : nat := CYC N + 2.
 
 Definition psiF (N : nat) (f : fpc) : nat :=
   match f with
   | FWait | FExit => 0
-  | FIdle | FInit => 1
+  | FIdle | FInit | FRenotified => 1
   | FNotified => 2
   | FNoPending | FErrSignaled => 3 + LCYC N
   | FError => 4 + LCYC N + EPS N
@@ -57,9 +61,12 @@ Definition psiX (N : nat) (x : xpc) : nat :=
   | XPipeDown => 8 + CYC N + LCYC N + EPS N
   | XStarted => 9 + CYC N + LCYC N + EPS N
   end.
+(* the pcs of the flush task after its flush loop *)
+Definition late (f : fpc) : bool := match f with FNoPending | FErrSignaled | FNotified | FIdle => true | _ => false end.
 Definition G (N : nat) (g : bgstate) : nat :=
   psiF N (g_fpc g) + psiL N (g_lpc g) + psiX N (g_xpc g)
-  + (if g_fpermit g then CYC N else 0) + (if g_lpermit g then LCYC N else 0) + FL N * g_imm g.
+  + (if g_fpermit g then CYC N else 0) + (if g_lpermit g then LCYC N else 0) + FL N * g_imm g
+  + (if late (g_fpc g) && Nat.ltb 0 (g_imm g) && negb (g_ffailed g) then RB N else 0).
 
 Definition staleq (hd tl h t0 : nat) : nat := if (h =? hd) && (t0 =? tl) then 0 else Lq.
 Definition stalev (vis cur : nat) : nat := if cur =? vis then 0 else Lv.
@@ -67,11 +74,11 @@ Definition stalee (ep e : nat) : nat := if e =? ep then 0 else Ls.
 
 (* potential of a committer; hd tl vis ep: the shared words it may have stale copies of *)
 Definition phiG (N hd tl vis ep : nat) (t : thr) : nat :=
-  let B := 15 + 2 * t_cnt t + CYC N + FL N in
+  let B := 15 + 2 * t_cnt t + CYC N + FL N + RB N in
   let C0 := B + 10 + KE N in
   match t_pc t with
   | CIdle | CReturned _ => 0
-  | CRetErr | CWaitDone | CEnqPanic => 1
+  | CWaitDone | CEnqPanic => 1
   | CPubExit | CEnqFullSeen => 2
   | CDeqNone => 3
   | CDeqChecked h t0 _ => 4 + staleq hd tl h t0
@@ -88,8 +95,8 @@ Definition phiG (N hd tl vis ep : nat) (t : thr) : nat :=
   | CApplying true => 10 + (t_cnt t - t_i t)
   | CWokeMem => 11 + t_cnt t
   | CRotated => 12 + t_cnt t + CYC N
-  | CArenaFull => 13 + t_cnt t + CYC N + FL N
-  | CApplying false => 14 + t_cnt t + CYC N + FL N + (t_cnt t - t_i t)
+  | CArenaFull => 13 + t_cnt t + CYC N + FL N + RB N
+  | CApplying false => 14 + t_cnt t + CYC N + FL N + RB N + (t_cnt t - t_i t)
   | CEnqueued => B
   | CEnqDone => B + 1
   | CEnqStored => B + 2 + KE N
@@ -215,7 +222,7 @@ Lemma phi_same : forall N s s0, qhead s0 = qhead s -> qtail s0 = qtail s -> visi
   g_epoch (bg s0) = g_epoch (bg s) -> forall u, phi N s0 u <= phi N s u + 0.
 Proof. intros N s s0 H1 H2 H3 H4 u. unfold phi. rewrite H1, H2, H3, H4. lia. Qed.
 
-Ltac unfold_consts := unfold KE, KQ, KZ, Kv, CYC, LCYC, FL, EPS, Ls, Lq, Lv in *.
+Ltac unfold_consts := unfold RB, KE, KQ, KZ, Kv, CYC, LCYC, FL, EPS, Ls, Lq, Lv in *.
 Ltac stale_tac :=
   unfold staleq, stalev, stalee; rewrite ?Nat.eqb_refl; simpl;
   repeat match goal with H : ?b = false |- context [if ?b then _ else _] => rewrite H end;
